@@ -613,6 +613,66 @@ pub fn c19(tier: Tier) -> i32 {
             acc
         })
         .reduce(Acc::new, Acc::merge);
+    // several deposit rows of one symbol in one export: each row is resolved on its own (both row orders)
+    {
+        let offs: [i64; 6] = [-2, 0, 1, 3, 5, 8];
+        let gaps: [i64; 7] = [1, 2, 3, 5, 7, 8, 9];
+        let dep = alpha::date(2024, 12, 27);
+        let jobs: Vec<(u32, i64, bool)> = (0..(1u32 << offs.len())).flat_map(|m| gaps.iter().flat_map(move |g| [(m, *g, false), (m, *g, true)])).collect();
+        let part = jobs
+            .par_iter()
+            .fold(Acc::new, |mut acc, (mask, gap, newest_first)| {
+                let present: Vec<i64> = offs.iter().enumerate().filter(|(i, _)| mask & (1 << i) != 0).map(|(_, o)| *o).collect();
+                let val = |o: i64| dec(&format!("{}.5", 100 + o + 9));
+                let entries: Vec<Value> = present.iter().map(|o| json!({"Date": us(dep + CDuration::days(*o + 2)), "Action": "Lapse", "Symbol": "XYZ", "TransactionDetails": [{"Details": {"VestDate": us(dep + CDuration::days(*o)), "VestFairMarketValue": format!("${}", val(*o))}}]})).collect();
+                let d2 = dep + CDuration::days(*gap);
+                let mk = |d: NaiveDate, q: &str| json!({"Date": us(d), "Action": "Stock Plan Activity", "Symbol": "XYZ", "Description": "RSU", "Quantity": q, "Price": "", "Fees & Comm": "", "Amount": ""});
+                let rows = if *newest_first { vec![mk(d2, "20"), mk(dep, "10")] } else { vec![mk(dep, "10"), mk(d2, "20")] };
+                let tx = json!({"BrokerageTransactions": rows}).to_string();
+                let awards = json!({"Transactions": entries}).to_string();
+                // reference: each deposit on its own
+                let lookup = |d: NaiveDate| -> Option<(NaiveDate, Decimal)> {
+                    let rel: Vec<i64> = present.iter().map(|o| (dep + CDuration::days(*o) - d).num_days()).collect();
+                    let best = if rel.contains(&0) { Some(0) } else { rel.iter().copied().filter(|r| (-7..=-1).contains(r)).max() }?;
+                    let o = present[rel.iter().position(|r| *r == best)?];
+                    Some((d + CDuration::days(best), val(o)))
+                };
+                let want: Vec<Option<(NaiveDate, Decimal, Decimal)>> = vec![lookup(dep).map(|(d, p)| (d, p, dec("10"))), lookup(d2).map(|(d, p)| (d, p, dec("20")))];
+                acc.states += 1;
+                acc.validated += 1;
+                acc.bump("two-deposit-exports");
+                let res = catch_unwind(AssertUnwindSafe(|| SchwabConverter::new().convert(&SchwabInput { transactions_json: tx.clone(), awards_json: Some(awards.clone()) })));
+                let inp = || Input::Json(json!({"transactions": serde_json::from_str::<Value>(&tx).unwrap_or(Value::Null), "awards": serde_json::from_str::<Value>(&awards).unwrap_or(Value::Null)}));
+                let cx = json!({"profile": "two-deposits", "variant": "two deposit rows"});
+                match res {
+                    Err(p) => acc.violation(&ctxr.findings, "C19", Violation { clause: "panic".into(), input: inp(), detail: panic_msg(p), context: cx }),
+                    Ok(Err(e)) => {
+                        if want.iter().all(|w| w.is_some()) {
+                            acc.violation(&ctxr.findings, "C19", Violation { clause: "usable-entry-ignored".into(), input: inp(), detail: format!("both deposits have a usable entry but conversion fails: {e}"), context: cx });
+                        }
+                    }
+                    Ok(Ok(o)) => {
+                        if want.iter().any(|w| w.is_none()) {
+                            acc.violation(&ctxr.findings, "C19", Violation { clause: "cost-invented".into(), input: inp(), detail: "a deposit has no entry on its date or within 7 days before it, yet the conversion succeeds".into(), context: cx });
+                        } else {
+                            let parsed = refparse::parse(&o.cgt_content).unwrap_or_default();
+                            let mut got: Vec<(NaiveDate, String, String)> = parsed.iter().filter_map(|t| if let Operation::Buy { amount, price, .. } = &t.operation { Some((t.date, price.amount.normalize().to_string(), amount.normalize().to_string())) } else { None }).collect();
+                            got.sort();
+                            let mut exp: Vec<(NaiveDate, String, String)> = want.iter().flatten().map(|(d, p, q)| (*d, p.normalize().to_string(), q.normalize().to_string())).collect();
+                            exp.sort();
+                            if got != exp {
+                                acc.violation(&ctxr.findings, "C19", Violation { clause: "wrong-entry".into(), input: inp(), detail: format!("BUY lines (date, price, quantity) {got:?}, expected {exp:?}"), context: cx });
+                            } else {
+                                acc.bump("two-deposits-resolved-independently");
+                            }
+                        }
+                    }
+                }
+                acc
+            })
+            .reduce(Acc::new, Acc::merge);
+        acc = Acc::merge(acc, part);
+    }
     // no awards file at all
     for dep in deposits {
         let tx = json!({"BrokerageTransactions": [{"Date": us(dep), "Action": "Stock Plan Activity", "Symbol": "XYZ", "Description": "RSU", "Quantity": "10", "Price": "", "Fees & Comm": "", "Amount": ""}]}).to_string();
@@ -625,7 +685,7 @@ pub fn c19(tier: Tier) -> i32 {
             other => acc.violation(&ctx.findings, "C19", Violation { clause: "no-awards-file".into(), input: Input::Json(json!({"transactions": tx})), detail: format!("without an awards file the conversion must fail naming symbol and date, got {:?}", other.map(|r| r.map(|o| o.cgt_content).map_err(|e| e.to_string())).map_err(|_| "panic")), context: Value::Null }),
         }
     }
-    for k in ["matched-on-deposit-date", "matched-by-look-back", "matched-at-exactly-7-days", "refused-no-entry-in-window", "no-awards-file"] {
+    for k in ["matched-on-deposit-date", "matched-by-look-back", "matched-at-exactly-7-days", "refused-no-entry-in-window", "no-awards-file", "two-deposits-resolved-independently"] {
         ctx.require(acc.get(k) > 0, &format!("nothing exhibited {k}"));
     }
     let _ = Rat::zero();
